@@ -113,3 +113,26 @@ Definition visited (v : gcvariant) (n : node) : list slot := filter (non_null n)
 
 Definition spec_owned (sp : spec) : list (list slot) := map owned (trav sp).
 Definition spec_visited (v : gcvariant) (sp : spec) : list (list slot) := map (visited v) (trav sp).
+
+(* ================= garbage-collector traversal of the leaf iterator ================= *)
+(* PyTreeIter owns its root, the objects pending on its agenda and — when one was given — the is_leaf
+   predicate (include/optree/treespec.h PyTreeIter members); PyTreeIter::PyTpTraverse must hand every one
+   of them to the collector, whatever the state of the iteration. *)
+Inductive iref := IRoot | IPending (o : obj) | IPredicate.
+
+Record iter_state := { it_root : obj; it_agenda : list (obj * nat); it_has_pred : bool }.
+
+Definition iter_owned (s : iter_state) : list iref :=
+  map (fun p => IPending (fst p)) (it_agenda s) ++ [IRoot] ++ (if it_has_pred s then [IPredicate] else []).
+
+Inductive itergc :=
+| IGcAll              (* agenda, root, predicate (gc.cpp after fix F18) *)
+| IGcNoPredicate      (* agenda and root only (gc.cpp before the fix) *)
+| IGcSkipExhausted.   (* nothing once the agenda is empty (a seeded change) *)
+
+Definition iter_visited (v : itergc) (s : iter_state) : list iref :=
+  match v with
+  | IGcAll => iter_owned s
+  | IGcNoPredicate => map (fun p => IPending (fst p)) (it_agenda s) ++ [IRoot]
+  | IGcSkipExhausted => match it_agenda s with [] => [] | _ => iter_owned s end
+  end.
